@@ -261,11 +261,17 @@ Proof.
   intros H; inversion H; subst. auto.
 Qed.
 
+Lemma retain_keeps_apex o n t : (t = tSOA \/ t = tNS) -> retain_keep o n (o, t) = true.
+Proof.
+  intros Ht. unfold retain_keep. cbn [fst snd]. rewrite name_eqb_refl, andb_true_r.
+  destruct Ht as [-> | ->]; cbn; apply orb_true_r.
+Qed.
+
 Lemma apply_rr_WF o z u z' b :
-  WF o z -> apex_wipe o u = false -> soa_not_apex o u = false ->
+  WF o z -> soa_not_apex o u = false ->
   apply_rr o z u = Some (z', b) -> WF o z'.
 Proof.
-  intros W Ha Hs. unfold apply_rr.
+  intros W Hs. unfold apply_rr.
   destruct (rclass u =? cIN) eqn:Ec.
   { intros H. inversion H as [H1].
     replace z' with (fst (upsert z u)) by now rewrite H1. now apply upsert_WF. }
@@ -273,16 +279,12 @@ Proof.
   { destruct (((rtype u =? tSOA) || (rtype u =? tNS)) && name_eqb (rname u) o) eqn:Eg.
     { intros H; inversion H; subst. exact W. }
     destruct (rtype u =? tANY) eqn:Et.
-    - (* delete all RRsets at a name other than the apex *)
+    - (* delete all RRsets at a name: the apex keeps SOA and NS *)
       intros H; inversion H; subst z' b. clear H.
-      unfold apex_wipe in Ha. rewrite Eany, Et in Ha. cbn [andb] in Ha. apply name_eqb_neq in Ha.
-      assert (Hkeep : forall t, retain_keep o (rname u) (o, t) = true).
-      { intros t. unfold retain_keep. cbn [fst snd].
-        assert (name_eqb o (rname u) = false) as -> by (apply name_eqb_neq; congruence). reflexivity. }
       apply (WF_shrink o z); auto.
       + intros k. rewrite zhas_retain. intros H. apply andb_true_iff in H. tauto.
-      + rewrite zget_retain, Hkeep. reflexivity.
-      + rewrite zget_retain, Hkeep. exact (wf_ns _ _ W).
+      + rewrite zget_retain, retain_keeps_apex by auto. reflexivity.
+      + rewrite zget_retain, retain_keeps_apex by auto. exact (wf_ns _ _ W).
       + intros n recs. rewrite zget_retain. destruct (retain_keep o (rname u) (n, tCNAME)); [|discriminate].
         intros Hg. exists recs. split; [exact Hg|lia].
     - destruct (rdat u) eqn:Ed; try (intros H; discriminate H).
@@ -324,15 +326,13 @@ Qed.
 (* the whole update section, the serial increment, the message         *)
 (* ------------------------------------------------------------------ *)
 
-Definition ok_rr (o : name) (u : rr) : Prop := apex_wipe o u = false /\ soa_not_apex o u = false.
+Definition ok_rr (o : name) (u : rr) : Prop := soa_not_apex o u = false.
 
 Lemma Known_inv_false o m : Known_inv o m = false -> Forall (ok_rr o) (m_upd m).
 Proof.
-  unfold Known_inv. intros H. apply Forall_forall. intros u Hu.
-  destruct (apex_wipe o u || soa_not_apex o u) eqn:E.
-  - assert (existsb (fun u => apex_wipe o u || soa_not_apex o u) (m_upd m) = true) as Hx
-      by (apply existsb_exists; eauto). congruence.
-  - apply orb_false_iff in E. exact E.
+  unfold Known_inv. intros H. apply Forall_forall. intros u Hu. unfold ok_rr.
+  destruct (soa_not_apex o u) eqn:E; [|reflexivity].
+  assert (existsb (soa_not_apex o) (m_upd m) = true) as Hx by (apply existsb_exists; eauto). congruence.
 Qed.
 
 Lemma apply_rrs_WF o us : forall z upd z' upd' c,
@@ -340,7 +340,7 @@ Lemma apply_rrs_WF o us : forall z upd z' upd' c,
 Proof.
   induction us as [|u us IH]; intros z upd z' upd' c W Hok; cbn [apply_rrs].
   - intros H; inversion H; subst; exact W.
-  - inversion Hok as [|? ? [Ha Hs] Hok']; subst.
+  - inversion Hok as [|? ? Hs Hok']; subst.
     destruct (apply_rr o z u) as [[z1 b]|] eqn:Ea.
     + intros H. eapply IH; [|exact Hok'|exact H]. eapply apply_rr_WF; eauto.
     + intros H; inversion H; subst; exact W.
